@@ -591,6 +591,13 @@ func declaredSamples(d []byte) (S int64, declared bool) {
 	}
 }
 
+func maxU32(a, b uint32) uint32 {
+	if a > b {
+		return a
+	}
+	return b
+}
+
 func be32u(b []byte) uint32 {
 	return uint32(b[0])<<24 | uint32(b[1])<<16 | uint32(b[2])<<8 | uint32(b[3])
 }
@@ -971,6 +978,40 @@ func hostileExec(id string, measure bool, d any) mon.Result {
 					}
 				}
 			}
+			// extreme aspect ratios (declared size still inside C09's domain) with tiles that
+			// fit exactly, overhang the image, or leave a last row/column of tiles one sample thick
+			for _, dm := range [][2]uint32{{65535, 8}, {8, 65535}, {8192, 8}, {8, 8192}, {4096, 3}, {3, 4096}, {1 << 20, 2}, {2, 1 << 20}, {300, 200}} {
+				for variant := 0; variant < 5; variant++ {
+					d := append([]byte(nil), s.Data...)
+					put(d, 8, dm[0])
+					put(d, 12, dm[1])
+					put(d, 16, 0)
+					put(d, 20, 0)
+					put(d, 32, 0)
+					put(d, 36, 0)
+					switch variant {
+					case 0:
+						put(d, 24, dm[0])
+						put(d, 28, dm[1])
+					case 1: // tile overhangs the image on both sides
+						put(d, 24, 2*dm[0])
+						put(d, 28, 2*dm[1]+1)
+					case 2:
+						put(d, 24, 1<<31-1)
+						put(d, 28, 1<<31-1)
+					case 3: // last tile row / column one sample thick
+						put(d, 24, maxU32(dm[0]-1, 1))
+						put(d, 28, maxU32(dm[1]-1, 1))
+					default: // tile overhangs vertically only / horizontally only
+						put(d, 24, dm[0])
+						put(d, 28, 2*dm[1])
+						run(d, nil)
+						put(d, 24, 2*dm[0])
+						put(d, 28, dm[1])
+					}
+					run(d, nil)
+				}
+			}
 		}
 	case "j2kamp":
 		// a well-formed main header whose COD claims much work (layers, levels, small
@@ -1047,7 +1088,7 @@ func j2kAmplify(src []byte, prog int) [][]byte {
 	bodies := [][]byte{nil, {0}, {0, 0, 0, 0}, bytes.Repeat([]byte{0}, 64), bytes.Repeat([]byte{0x80}, 16), body[:len(body)/2], body}
 	var out [][]byte
 	for _, layers := range []int{1, 3, 65535} {
-		for _, levels := range []int{-1, 0, 5} {
+		for _, levels := range []int{-1, 0, 5, 32} {
 			for pv := 0; pv < 4; pv++ {
 				c := *inf.COD
 				lv := c.Levels
@@ -1087,13 +1128,31 @@ func j2kAmplify(src []byte, prog int) [][]byte {
 				} else {
 					hdr = append(append(append(append(append(hdr, src[:qs]...), qcd...), src[qe:cs]...), cod...), src[ce:inf.MainHeaderEnd]...)
 				}
-				for _, bd := range bodies {
-					psot := 14 + len(bd)
-					d := append([]byte(nil), hdr...)
-					d = append(d, 0xFF, 0x90, 0, 10, 0, 0, byte(psot>>24), byte(psot>>16), byte(psot>>8), byte(psot), 0, 1, 0xFF, 0x93)
-					d = append(d, bd...)
-					d = append(d, 0xFF, 0xD9)
-					out = append(out, d)
+				hdrs := [][]byte{hdr}
+				if layers == 65535 && len(hdr) > 45 && hdr[2] == 0xFF && hdr[3] == 0x51 {
+					// the same header declaring 48 components (the first one repeated)
+					lsiz := int(hdr[4])<<8 | int(hdr[5])
+					if 4+lsiz <= len(hdr) && lsiz >= 41 {
+						const nc = 48
+						siz := append([]byte(nil), hdr[2:42]...)
+						siz[2], siz[3] = byte((38+3*nc)>>8), byte((38+3*nc)&0xFF)
+						siz[38], siz[39] = 0, nc
+						for k := 0; k < nc; k++ {
+							siz = append(siz, hdr[42], hdr[43], hdr[44])
+						}
+						h2 := append(append(append([]byte(nil), hdr[:2]...), siz...), hdr[4+lsiz:]...)
+						hdrs = append(hdrs, h2)
+					}
+				}
+				for _, hdr := range hdrs {
+					for _, bd := range bodies {
+						psot := 14 + len(bd)
+						d := append([]byte(nil), hdr...)
+						d = append(d, 0xFF, 0x90, 0, 10, 0, 0, byte(psot>>24), byte(psot>>16), byte(psot>>8), byte(psot), 0, 1, 0xFF, 0x93)
+						d = append(d, bd...)
+						d = append(d, 0xFF, 0xD9)
+						out = append(out, d)
+					}
 				}
 			}
 		}
